@@ -291,7 +291,8 @@ class Translator:
                 return
             if b == "callContainer.RemoveCall#2.stmt":
                 if getattr(r, "stage", "") == "enc":
-                    raise Unsupported("compressData failed: Call returns before the frame is encoded (not modelled)")
+                    # compressData failed: Call returns with only RemoveCall deferred (no frame, no send, no record)
+                    E.act("cCompressFail %d" % c)
                 E.act("cRm %d" % c)
                 return
         if r.kind == "notifier":
